@@ -144,7 +144,15 @@ CrossFileFlagShapes == <<
   Shape("c10.xfile", [pkg |-> "tp", msgs |-> <<XFront, XRoot>>, deps |-> <<XDep>>],
         [BaseCfg EXCEPT !.required = <<"Extra.Raw">>, !.sensitive = <<"Root.Subs.Str">>, !.computed = <<"Root.Sub.Str">>, !.usfu = TRUE]) >>
 
-GenFlagShapes(long) == CommentShapes \o FlagShapesQuick \o CustomFlagShapes \o CrossFileFlagShapes \o (IF long THEN FlagShapesFull ELSE <<>>)
+\* comments of fields declared AFTER an excluded field (no attribute) and after an embedded message (two attributes)
+IndexShapes == <<
+  Shape("c10.index", Desc(<<Msg("Inner", <<Commented(Fld("Flag", 1, "bool"), Com6), Fld("Num", 2, "int32")>>, <<>>),
+                            Msg("Root", <<Commented(Fld("Extra", 1, "string"), Com4), Commented(Fld("Str", 2, "string"), Com1),
+                                          NonNull(Embed(MsgF("Inner", 3, "Inner"))), Commented(Rep(Fld("Items", 4, "string")), Com3),
+                                          Commented(Fld("Zed", 5, "string"), Com2)>>, <<>>)>>),
+        [BaseCfg EXCEPT !.exclude = <<"Root.Extra">>]) >>
+
+GenFlagShapes(long) == CommentShapes \o FlagShapesQuick \o CustomFlagShapes \o CrossFileFlagShapes \o IndexShapes \o (IF long THEN FlagShapesFull ELSE <<>>)
 
 ---------------------------------------------------------------------------
 \* C12: only the selected types, independent of the rest of the request
@@ -198,8 +206,16 @@ EmptyUseShapes ==
   IN <<mk("1", <<"Root">>, "Root"), mk("2", <<"Other">>, "Other"), mk("3", <<"Root", "Other">>, "Root"), mk("3", <<"Root", "Other">>, "Other"),
        mk("4", <<"Other", "Root", "Empty">>, "Root"), mk("4", <<"Other", "Root", "Empty">>, "Other")>>
 
+\* unselected, unreferenced messages whose NAMES are a proper suffix / prefix of the selected type's name
+NameRelShapes ==
+  LET fb == Msg("FooBar", <<Fld("Str", 1, "string"), Fld("Num", 2, "int32")>>, <<>>)
+      mk(id, msgs) == [Shape("c12.n." \o id, Desc(msgs), [BaseCfg EXCEPT !.types = <<"FooBar">>]) EXCEPT
+                         !.root = "FooBar", !.group = "c12.n", !.gchecks = <<GCheck("fn", "C12", "C12.text_independent")>>]
+  IN <<mk("alone", <<fb>>),
+       mk("rel", <<Msg("Bar", <<Fld("Num", 1, "int32")>>, <<>>), fb, Msg("Foo", <<Fld("Flag", 1, "bool")>>, <<>>)>>)>>
+
 GenSelectShapes(long) ==
-  CrossFileShapes \o EmptyUseShapes \o
+  CrossFileShapes \o EmptyUseShapes \o NameRelShapes \o
   IF long THEN SelShapesOf(FALSE, {"none", "msg", "dep", "rev"}) \o SelShapesOf(TRUE, {"none", "msg", "dep", "rev"})
   ELSE SelShapesOf(FALSE, {"none", "dep", "rev"}) \o SelShapesOf(TRUE, {"msg", "rev"})
 
@@ -278,7 +294,7 @@ ChanRoot == Msg("Root", <<Fld("Str", 1, "string"), Fld("Extra", 2, "string"), Ms
                           Cast(Fld("Dur", 4, "int64"), "Duration"), Fld("Zed", 5, "int32"), Fld("Alpha", 6, "bool")>>, <<>>)
 ChanOther == Msg("Other", <<Fld("Num", 1, "int32")>>, <<>>)
 ChanCfg == [BaseCfg EXCEPT !.types = <<"Root", "Other">>, !.exclude = <<"Root.Extra">>, !.computed = <<"Root.Str", "Other.Num">>,
-                           !.required = <<"Leaf.Str">>, !.sensitive = <<"Root.Sub.Str", "Root.Alpha">>, !.separate = TRUE,
+                           !.required = <<"Leaf.Str">>, !.sensitive = <<"Root.Sub.Str", "Root.Alpha", "Root.Str">>, !.separate = TRUE,
                            !.durationcustom = "Duration", !.sort = TRUE,
                            \* a file-only switch whose effect depends on a two-channel list (computed_fields)
                            !.usfu = TRUE]
@@ -291,6 +307,10 @@ ChanAlts(long) ==
   \* an empty command-line value means "not given": the YAML value stays in force
   \o <<[Alt("yaml.plus.empty.cli", "C16.channel_equiv", <<>>, 0, <<>>) EXCEPT !.emptycli = TRUE],
        [Alt("mix.plus.empty.cli", "C16.channel_equiv", ChanMix(2), 0, <<>>) EXCEPT !.emptycli = TRUE]>>
+  \* the same YAML document spelled otherwise: flow sequences; a path that occurs in two lists anchored once and aliased
+  \o <<[Alt("yaml.flow", "C16.channel_equiv", <<>>, 0, <<>>) EXCEPT !.yamlstyle = "flow"],
+       [Alt("yaml.alias", "C16.channel_equiv", <<>>, 0, <<>>) EXCEPT !.yamlstyle = "alias"],
+       [Alt("mix.alias", "C16.channel_equiv", ChanOne(1, "cli"), 3, <<>>) EXCEPT !.yamlstyle = "alias"]>>
 
 GenConfigShapes(long) == <<
   [Shape("c16.chan", Desc(<<Leaf, ChanRoot, ChanOther>>), [ChanCfg EXCEPT !.alts = ChanAlts(long)]) EXCEPT !.root = "Root"],
@@ -304,8 +324,9 @@ GenConfigShapes(long) == <<
 \* C14: a configuration with several entries in every map / list option; the same request again and
 \* again, and with permuted entry orders
 DetCfg == [BaseCfg EXCEPT !.types = <<"Root", "Other", "Leaf">>, !.exclude = <<"Root.Extra", "Other.Num">>,
-             !.computed = <<"Root.Str", "Leaf.Str", "Root.Alpha">>, !.required = <<"Root.Zed", "Root.Sub.Str">>,
-             !.sensitive = <<"Root.Sub", "Root.Dur", "Leaf.Num">>, !.durationcustom = "Duration", !.usfu = TRUE,
+             \* (computed and sensitive list a message field AND a field below it: an entry never stands for another one)
+             !.computed = <<"Root.Sub", "Root.Str", "Leaf.Str", "Root.Alpha", "Root.Sub.Num">>, !.required = <<"Root.Zed", "Root.Sub.Str">>,
+             !.sensitive = <<"Root.Sub", "Root.Dur", "Root.Sub.Str", "Leaf.Num">>, !.durationcustom = "Duration", !.usfu = TRUE,
              \* Root.Sub.Num / Root.Sub.Str are addressed twice with different values: by path and by Leaf.<field> (the path wins)
              !.nameoverrides = <<KV("Root.Str", "ovr_a"), KV("Leaf.Num", "ovr_b"), KV("Root.Zed", "ovr_c"), KV("Root.Sub.Num", "ovr_d")>>,
              !.validators = <<[k |-> "Root.Str", v |-> <<"1", "2">>], [k |-> "Leaf.Str", v |-> <<"3">>], [k |-> "Root.Zed", v |-> <<"2">>],
@@ -354,18 +375,21 @@ SortRootFields == <<Fld("Zed", 1, "string"), InOneof(Fld("BranchC", 2, "int32"),
                     Fld("Alpha", 4, "int32"), InOneof(Fld("BranchA", 5, "string"), "Alpha"), InOneof(MsgF("BranchB", 6, "Leaf"), "Alpha"),
                     NonNull(Embed(MsgF("Inner", 7, "Inner"))), Rep(Fld("Items", 8, "string"))>>
 \* oneof groups are named like fields on purpose: holders Zed2 / Alpha2 would sort differently than declared
-SortRoot == Msg("Root", <<Fld("Str", 1, "string"), InOneof(Fld("BranchC", 2, "int32"), "Grp2"), InOneof(Fld("BranchD", 3, "string"), "Grp2"),
-                          Fld("Alpha", 4, "int32"), InOneof(Fld("BranchA", 5, "string"), "Grp"), InOneof(MsgF("BranchB", 6, "Leaf"), "Grp"),
-                          NonNull(Embed(MsgF("Inner", 7, "Inner"))), Rep(Fld("Items", 8, "string")),
+\* (leading comments on fields declared before and after the embedded message, which contributes two fields, and after an
+\* excluded field, which contributes none: a comment belongs to the field's position in the DESCRIPTOR)
+SortRoot == Msg("Root", <<Commented(Fld("Str", 1, "string"), Com1), InOneof(Fld("BranchC", 2, "int32"), "Grp2"), InOneof(Fld("BranchD", 3, "string"), "Grp2"),
+                          Commented(Fld("Alpha", 4, "int32"), Com2), InOneof(Commented(Fld("BranchA", 5, "string"), Com5), "Grp"), InOneof(MsgF("BranchB", 6, "Leaf"), "Grp"),
+                          NonNull(Embed(MsgF("Inner", 7, "Inner"))), Commented(Rep(Fld("Items", 8, "string")), Com3),
                           \* two names which differ in case only (a total order must separate them)
-                          Fld("FooBar", 9, "string"), Fld("foobar", 10, "int32")>>, <<"Grp2", "Grp">>)
+                          Commented(Fld("FooBar", 9, "string"), Com6), Fld("foobar", 10, "int32"),
+                          Commented(Fld("Extra", 11, "string"), Com4)>>, <<"Grp2", "Grp">>)
 SortInner == Msg("Inner", <<Fld("Zed", 1, "bool"), Fld("Flag", 2, "bool")>>, <<>>)
 \* a message with two oneof groups declared against the alphabet, reached TWICE from a selected type
 SortPair == Msg("Pair", <<InOneof(Fld("BranchC", 1, "string"), "Zed"), InOneof(Fld("BranchD", 2, "int32"), "Zed"),
                           InOneof(Fld("BranchA", 3, "string"), "Alpha")>>, <<"Zed", "Alpha">>)
 SortOther == Msg("Other", <<Fld("Num", 1, "int32"), Fld("Flt", 2, "float"), MsgF("Sub", 3, "Pair"), MsgF("Sub2", 4, "Pair")>>, <<>>)
 SortMsgs == <<Leaf, SortInner, SortPair, SortRoot, SortOther>>
-SortCfg(sort) == [BaseCfg EXCEPT !.types = <<"Root", "Other", "Leaf">>, !.sort = sort]
+SortCfg(sort) == [BaseCfg EXCEPT !.types = <<"Root", "Other", "Leaf">>, !.sort = sort, !.exclude = <<"Root.Extra">>]
 
 \* rotations + a reversal + swaps of the root's fields (thorough: more), all orders of the messages
 FieldOrders(long) ==
@@ -374,7 +398,7 @@ FieldOrders(long) ==
       rot(k) == [i \in 1..n |-> fs[((i + k - 1) % n) + 1]]
       rev == [i \in 1..n |-> fs[n + 1 - i]]
       swap(a, b) == [i \in 1..n |-> IF i = a THEN fs[b] ELSE IF i = b THEN fs[a] ELSE fs[i]]
-  IN <<rev, rot(1), rot(3), swap(2, 5), swap(1, 8)>> \o (IF long THEN <<rot(2), rot(4), rot(5), rot(6), rot(7), swap(2, 3), swap(5, 6), swap(3, 6), swap(4, 7)>> ELSE <<>>)
+  IN <<rev, rot(1), rot(3), swap(2, 5), swap(1, 8), swap(1, 11)>> \o (IF long THEN <<rot(2), rot(4), rot(5), rot(6), rot(7), swap(2, 3), swap(5, 6), swap(3, 6), swap(4, 7)>> ELSE <<>>)
 
 \* message orders: 5 messages; all 119 non-identical orders in the thorough tier, a seeded handful otherwise
 MsgOrders == SetToSeq(PermSeqs(<<1, 2, 3, 4, 5>>) \ {<<1, 2, 3, 4, 5>>})
@@ -498,7 +522,14 @@ GenAddrMixed == <<
   Shape("c11.mix.3", AddrDesc, [BaseCfg EXCEPT !.computed = <<"Root.Sub2.Num", "Leaf.Str">>, !.validators = <<[k |-> "Leaf.Num", v |-> <<"1">>]>>,
                                                !.required = <<"Root.Subs.Str">>, !.sensitive = <<"Leaf.Num">>, !.usfu = TRUE]),
   Shape("c11.mix.4", AddrDesc, [BaseCfg EXCEPT !.nameoverrides = <<KV("Leaf.Str", "ovr_t"), KV("Root.Sub.Str", "ovr_p")>>, !.exclude = <<"Root.Sub2.Str">>,
-                                               !.computed = <<"Root.Sub.Str">>, !.usfu = TRUE]) >>
+                                               !.computed = <<"Root.Sub.Str">>, !.usfu = TRUE]),
+  \* options addressed to a CUSTOM-type field (both key forms; the default plan modifier of a computed one): the attribute
+  \* handed to GenSchema<Suffix> carries them like any other attribute does
+  Shape("c11.mix.5", Desc(<<Msg("Leaf", <<Fld("Str", 1, "string"), Fld("Cust", 2, "string")>>, <<>>),
+                            Msg("Root", <<MsgF("Sub", 1, "Leaf"), MsgF("Sub2", 2, "Leaf"), Fld("Num", 3, "int32")>>, <<>>)>>),
+        [BaseCfg EXCEPT !.customtypes = <<KV("Root.Sub.Cust", "CustN"), KV("Root.Sub2.Cust", "CustN")>>,
+                        !.validators = <<[k |-> "Leaf.Cust", v |-> <<"1">>]>>, !.planmodifiers = <<[k |-> "Root.Sub.Cust", v |-> <<"2">>]>>,
+                        !.computed = <<"Root.Sub2.Cust">>, !.sensitive = <<"Leaf.Cust">>, !.usfu = TRUE]) >>
 
 GenAddrShapes ==
   <<Shape("c11.base", AddrDesc, BaseCfg)>> \o GenAddrSeparate \o GenAddrMixed
